@@ -2,6 +2,8 @@
 fast predicate == point-to-segment distance table, reference measurement structure."""
 import ast
 import itertools
+import random
+from fractions import Fraction
 
 from ..poly import Sym, mk_func
 from .. import poly
@@ -9,6 +11,8 @@ from ..interp import (Interp, Hooks, Opaque, Tup, Const, Cmp, NotC, State, Effec
                       NONE, TRUE, FALSE, Outcome)
 from ..model import AnalysisError
 from .. import purity
+from .. import loops
+from ..interp import Truthy, AndC, OrC
 from . import motion
 
 # loops the engines summarise on purpose (retry / pause / enumeration loops are judged by the
@@ -131,6 +135,7 @@ def check_effects(ck, prog, fn, f_pred):
     ck.saw('uses_of_vertex_list', [(k, n.lineno) for k, n in uses])
     allowed = {'len', 'read-slice', 'delete', 'read-by-helper'}
     n_del = 0
+    delegated = []
     for kind, n in uses:
         ok = kind in allowed
         if kind == 'delete':
@@ -138,9 +143,12 @@ def check_effects(ck, prog, fn, f_pred):
         if kind.startswith('helper:') and kind.split(':')[2] in allowed:
             # an allowed operation performed by a helper: the range rule (D2) reads the deletion
             # site in supersample itself and cannot follow it into the helper
-            raise AnalysisError('supersample delegates "%s" on the vertex list to helper %s (%s); '
-                                'the deletion-range rule cannot follow it'
-                                % (kind.split(':')[2], kind.split(':')[1], fn.loc(n)))
+            delegated.append('supersample delegates "%s" on the vertex list to helper %s (%s); '
+                             'the deletion-range rule cannot follow it'
+                             % (kind.split(':')[2], kind.split(':')[1], fn.loc(n)))
+            if kind.split(':')[2] == 'delete':
+                n_del += 1
+            continue
         ck.ob('C09-D1-deletion-only', 'supersample::use[%s@%s]' % (kind, ast.unparse(
             parent_map(fn.node).get(n))[:40]), ok,
               'the vertex list is used as "%s" (%s): only len(), slicing into a copy and '
@@ -162,6 +170,7 @@ def check_effects(ck, prog, fn, f_pred):
         ck.ob('C09-D1-deletion-only', 'points_in_tolerance::use[%s@%d]' % (kind, n.lineno),
               not bad, 'the predicate mutates its argument (%s)' % kind, f_pred.loc(n),
               key='points_in_tolerance::effect')
+    return delegated
 
 
 def check_early_exits(ck, prog, fn):
@@ -582,6 +591,250 @@ def check_predicate(ck, prog, f_pred):
     ck.floor('predicate decision rows', total_rows, 10)
 
 
+# ---------------------------------------------------------------------------- D5 bounded lists
+class _BoundedHooks(loops.UnrollMixin, Hooks):
+    """supersample on a list of k distinct vertex objects: every loop test and index is a number,
+    the only open question on a path is what the predicate answers for a window."""
+    unroll = True
+    fork_undecided = True
+    fork_depth = 60
+    fork_work_cap = 60000
+    list_writeback = True
+
+    def __init__(self, pred_qual):
+        self.pred_qual = pred_qual
+        self.foreign = []
+
+    def loop(self, interp, node, st):
+        return self.unroll_loop(interp, node, st)
+
+    def inline(self, fn, depth):
+        return fn.qualname != self.pred_qual and depth < 8
+
+    def call(self, interp, target, args, kwargs, st, node):
+        if isinstance(target, FuncRef) and target.fn.qualname == self.pred_qual:
+            vals = list(args) + [kwargs[k] for k in sorted(kwargs)]
+            if len(vals) != 2 or kwargs:
+                self.foreign.append('predicate called with %r' % (vals,))
+                return None
+            win, tol = vals
+            if not (isinstance(win, Tup) and all(_vid(e) is not None for e in win.items)
+                    and isinstance(tol, Sym) and tol.is_const()):
+                self.foreign.append('predicate asked about %r with tolerance %r' % (win, tol))
+                return None
+            if len(win.items) < 3:
+                return [(None, st.raising('AssertionError').note(
+                    ('raised-by', 'points_in_tolerance on %d vertices' % len(win.items),
+                     node.lineno)))]
+            return [(Opaque('accepted', (Tup(win.items, 'tuple'), tol), 'bool'), st)]
+        return None
+
+    def decide(self, cond, st):
+        if isinstance(cond, (NotC, AndC, OrC)):
+            return None
+        inner = cond.v if isinstance(cond, Truthy) else None
+        if not (isinstance(inner, Opaque) and inner.label == 'accepted'):
+            # nothing else is open on a list of known length: stop at once (exploring both
+            # outcomes of a test on forgotten values only multiplies meaningless paths)
+            raise AnalysisError('supersample: on a list of vertex objects of known length the '
+                                'control flow depends on more than the predicate\'s answers '
+                                '(test %s)' % repr(cond)[:300])
+        return None
+
+
+def _vid(e):
+    if isinstance(e, Opaque) and e.label == 'vertex' and e.args and isinstance(e.args[0], Sym) \
+            and e.args[0].is_const():
+        return int(e.args[0].const_value())
+    return None
+
+
+def _dist2_to_segment(p, a, b):
+    """Exact squared distance from p to the closed segment ab as a pair (numerator, denominator)
+    of integers / rationals (no division: the comparisons below cross-multiply)."""
+    (px, py), (ax, ay), (bx, by) = p, a, b
+    dx, dy = bx - ax, by - ay
+    L2 = dx * dx + dy * dy
+    t = (px - ax) * dx + (py - ay) * dy
+    if L2 == 0 or t <= 0:
+        return (px - ax) ** 2 + (py - ay) ** 2, 1
+    if t >= L2:
+        return (px - bx) ** 2 + (py - by) ** 2, 1
+    cr = (px - ax) * dy - (py - ay) * dx
+    return cr * cr, L2
+
+
+def _closer(p, a, b, tol):
+    """dist(p, segment ab) < tol for tol > 0; for tol <= 0 the comparison the predicate makes
+    (squared distance against the squared tolerance)."""
+    num, den = _dist2_to_segment(p, a, b)
+    return num < tol * tol * den
+
+
+SCALE = 20      # concrete coordinates are integers: 1/20 of a unit
+
+
+def _geometries(k, deep):
+    """Vertex lists of length k (integer coordinates in 1/SCALE units): four abscissa patterns
+    (uniform, spreading, zig-zag, repeated points), each also closed (last = first), x ordinates
+    from a small set - complete for short lists, a fixed pseudo-random selection for longer."""
+    ys = [0, 18, -30, 10, 40]
+    pats = {
+        'uniform': [100 * i for i in range(k)],
+        'spreading': [0] + [100 * 2 ** (i - 1) for i in range(1, k)],
+        'zig-zag': [0 if i % 2 == 0 else 200 for i in range(k)],
+        'repeated': [100 * (i // 2) for i in range(k)],
+    }
+    cap = 4000 if deep else 700
+    rnd = random.Random(k)
+    for name, xs in pats.items():
+        total = len(ys) ** k
+        if total <= cap:
+            combos = itertools.product(ys, repeat=k)
+        else:
+            combos = (tuple(rnd.choice(ys) for _ in range(k)) for _ in range(cap))
+        for yy in combos:
+            pts = list(zip(xs, yy))
+            yield name, pts
+            if k >= 3 and pts[-1] != pts[0]:
+                yield name + ', closed', pts[:-1] + [pts[0]]
+
+
+def check_bounded(ck, prog, fn, f_pred, deep, why=None, gaps_from=0):
+    """D5: supersample interpreted on lists of 0..N distinct vertex objects (N = 6, thorough 8):
+    the control flow is then fully determined except for the answers of the predicate, and both
+    answers are followed at every call.  Every leaf of that decision tree carries the windows
+    asked about, the answers and the final list.  The tree is then evaluated, with exact rational
+    geometry and the predicate's own definition (every interior vertex of a window closer than
+    the tolerance to its chord), on a family of vertex lists: the final list must be an in-order
+    subsequence keeping both ends, and every deleted vertex must be closer than the tolerance to
+    the segment between its surviving neighbours.  A violation is reported only with such a
+    concrete list."""
+    param, tparam = fn.params
+    N = 8 if deep else 6
+    n_leaves = n_geo = 0
+    shown = set()
+
+    def report(kind, k, tol, name, pts, final, msg):
+        if kind in shown:
+            return
+        shown.add(kind)
+        ck.ob('C09-D5-bounded-lists', '%s[n=%d, tolerance=%s]' % (kind, k, tol), False,
+              '%s(%s, %s) [%s]: %s%s' % (fn.qualname,
+                                         [tuple(c / SCALE for c in p) for p in pts], tol, name, msg,
+                                         '' if final is None else '; vertices kept: %s' % (final,)),
+              fn.loc(), key='supersample::bounded:%s' % kind)
+
+    for tol in ([Fraction(1), Fraction(-1), Fraction(0)] + ([Fraction(9, 20)] if deep else [])):
+        for k in range(0, N + 1):
+            if tol <= 0 and k > 4:
+                continue
+            hk = _BoundedHooks(f_pred.qualname)
+            it = Interp(prog, hk, max_paths=400000)
+            it.stack.append(fn)
+            verts = Tup(tuple(Opaque('vertex', (Sym.const(i),), 'point') for i in range(k)), 'list')
+            st = State(env={param: verts, tparam: Sym.const(tol)})
+            leaves = []
+            for out in it.exec_block(fn.body(), st):
+                dec = []
+                for c, t in out.state.path:
+                    v = c.v if isinstance(c, Truthy) else None
+                    if isinstance(v, Opaque) and v.label == 'accepted':
+                        dec.append((tuple(_vid(e) for e in v.args[0].items),
+                                    v.args[1].const_value(), bool(t)))
+                if out.kind == 'raise':
+                    leaves.append((dec, 'raise', str(out.value)))
+                    continue
+                final = out.state.env.get(param)
+                if not (isinstance(final, Tup) and final.kind == 'list'):
+                    raise AnalysisError('%s: on a list of %d vertices the final value of the '
+                                        'list is not followed (%r)' % (fn.qualname, k, final))
+                ids = tuple(_vid(e) for e in final.items)
+                leaves.append((dec, 'list', ids))
+            it.stack.pop()
+            from ..interp import GAP_EVENTS
+            if len(GAP_EVENTS) > gaps_from:
+                raise AnalysisError('%s on a list of %d vertex objects meets a construct the '
+                                    'interpreter does not model (%s %s at %s)'
+                                    % ((fn.qualname, k) + tuple(GAP_EVENTS[gaps_from][:3])))
+            if hk.uncountable:
+                raise AnalysisError('%s: on a list of %d vertices a loop is still running after '
+                                    '%d iterations along some sequence of predicate answers'
+                                    % (fn.qualname, k, hk.fork_depth))
+            if hk.foreign:
+                raise AnalysisError('%s: on a list of %d vertex objects the control flow depends '
+                                    'on more than the predicate\'s answers (%s)'
+                                    % (fn.qualname, k, hk.foreign[0][:300]))
+            n_leaves += len(leaves)
+            witnessed = set()
+            geos = list(_geometries(k, deep)) if k else [('empty', [])]
+            for name, pts in geos:
+                n_geo += 1
+                memo = {}
+
+                def accepted(win, t):
+                    key = (win, t)
+                    if key not in memo:
+                        a, b = pts[win[0]], pts[win[-1]]
+                        memo[key] = all(_closer(pts[j], a, b, t * SCALE) for j in win[1:-1])
+                    return memo[key]
+                hit = None
+                for li, (dec, kind, val) in enumerate(leaves):
+                    if all(accepted(w, t) == ans for w, t, ans in dec):
+                        hit = li
+                        break
+                if hit is None:
+                    raise AnalysisError('%s: no leaf of the decision tree for %d vertices matches '
+                                        'a concrete list (model error)' % (fn.qualname, k))
+                witnessed.add(hit)
+                dec, kind, val = leaves[hit]
+                if kind == 'raise':
+                    report('raises', k, tol, name, pts, None, 'raises %s' % val)
+                    continue
+                ids = val
+                if k <= 2 or tol <= 0:
+                    if ids != tuple(range(k)):
+                        report('unchanged', k, tol, name, pts, ids,
+                               'a list of at most two vertices / a non-positive tolerance must '
+                               'leave the list unchanged')
+                    continue
+                if None in ids or any(b <= a for a, b in zip(ids, ids[1:])):
+                    report('subsequence', k, tol, name, pts, ids,
+                           'the result is not an in-order subsequence of the given vertex objects')
+                    continue
+                if not ids or ids[0] != 0 or ids[-1] != k - 1:
+                    report('ends', k, tol, name, pts, ids, 'the first / last vertex is not kept')
+                    continue
+                for a, b in zip(ids, ids[1:]):
+                    for j in range(a + 1, b):
+                        if not _closer(pts[j], pts[a], pts[b], tol * SCALE):
+                            num, den = _dist2_to_segment(pts[j], pts[a], pts[b])
+                            report('tolerance', k, tol, name, pts, ids,
+                                   'deleted vertex #%d %s is %.6g away from the segment between '
+                                   'the surviving vertices #%d and #%d around it (tolerance %s)'
+                                   % (j, tuple(c / SCALE for c in pts[j]),
+                                      (num / den) ** 0.5 / SCALE, a, b, tol))
+            # a leaf that breaks the list discipline whatever the geometry, but that none of the
+            # concrete lists reaches, is not a verdict either way
+            for li, (dec, kind, val) in enumerate(leaves):
+                if li in witnessed:
+                    continue
+                broken = kind == 'raise' or None in val or any(
+                    b <= a for a, b in zip(val, val[1:])) or (
+                        k >= 1 and (not val or val[0] != 0 or val[-1] != k - 1))
+                if broken and not shown:
+                    raise AnalysisError('%s: for %d vertices the answer sequence %s ends with %s, '
+                                        'but no concrete list of the family produces that '
+                                        'sequence' % (fn.qualname, k, dec, val))
+    ck.floor('decision-tree leaves (bounded lists)', n_leaves, 30)
+    ck.floor('concrete vertex lists evaluated', n_geo, 3000)
+    ck.ob('C09-D5-bounded-lists', 'lists of 0..%d vertices [%d leaves, %d concrete lists]'
+          % (N, n_leaves, n_geo), True, '', fn.loc(),
+          key='supersample::bounded:summary')
+    ck.saw('bounded_lists', {'max_vertices': N, 'leaves': n_leaves, 'concrete_lists': n_geo,
+                             'used_because': why or 'always run'})
+
+
 def check_reference(ck, prog):
     fn = prog.func('plot_utils.max_dist_from_n_points')
     ck.saw('functions', fn.qualname + ' @ ' + fn.loc())
@@ -631,9 +884,30 @@ def run(ck, prog, tier):
         raise AnalysisError('supersample / points_in_tolerance signature changed')
     ck.saw('functions', [fn.qualname + ' @ ' + fn.loc(), f_pred.qualname + ' @ ' + f_pred.loc()])
     purity.check(ck, prog, ['plot_utils.supersample', 'plot_utils.points_in_tolerance', 'plot_utils.max_dist_from_n_points'], 'C09-R-pure')
-    check_effects(ck, prog, fn, f_pred)
+    # reasons why the affine reading of the loop nest (D3) does not apply to this shape of code;
+    # the bounded decision-tree analysis (D5) does not depend on how the loops are written or on
+    # which helper performs the deletion, and then carries the index clauses alone
+    deferred = list(check_effects(ck, prog, fn, f_pred))
     check_early_exits(ck, prog, fn)
-    check_loop_nest(ck, prog, fn)
+    if not deferred:
+        try:
+            check_loop_nest(ck, prog, fn)
+        except AnalysisError as exc:
+            deferred.append(str(exc))
+    if deferred:
+        ck.saw('loop_nest_rule', 'not applicable to this shape: %s' % deferred[0][:300])
+    from ..interp import suspended_gaps, GAP_EVENTS
+    try:
+        with suspended_gaps():
+            # constructs the interpreter does not model make the decision tree unreliable: they
+            # end this analysis (cannot conclude), they do not taint the other rules
+            n0 = len(GAP_EVENTS)
+            check_bounded(ck, prog, fn, f_pred, tier == 'thorough',
+                          deferred[0] if deferred else None, n0)
+    except AnalysisError as exc:
+        if deferred and not ck.violations:
+            raise AnalysisError('%s; and the bounded analysis: %s' % (deferred[0], exc))
+        ck.saw('bounded_lists', 'skipped: %s' % str(exc)[:300])
     check_predicate(ck, prog, f_pred)
     check_reference(ck, prog)
     ck.exhaustive = True
